@@ -19,7 +19,8 @@ def healthy_seq(rng, tags, cid, streams):
     for _ in range(rng.randrange(1, 5)):
         kind = rng.choice(["Echo", "Count", "Fail", "Ping", "Count"] + (["Sub"] if streams else []))
         frames.append(sg.call(kind, cid, tags.next(), v=rng.randrange(0, 1000), oneway=rng.random() < 0.15,
-                              more=rng.choice(sg.MORE) if kind == "Sub" else rng.choice([False, False, True])))
+                              more=rng.choice(sg.MORE) if kind == "Sub" else rng.choice([False, False, True]),
+                              extra=sg.pick_extra(rng)))
         if kind == "Sub":
             sevs += [["si", cid, rng.randrange(0, 99), rng.randrange(0, 3)] for _ in range(rng.randrange(0, 3))]
             sevs.append(["se", cid])
@@ -31,7 +32,8 @@ def healthy_seq(rng, tags, cid, streams):
 def faulty_seq(rng, tags, cid, fault, place, limit):
     """connect + events of a client with one fault after `place` valid calls."""
     def valid():
-        return sg.call(rng.choice(["Echo", "Count", "Fail"]), cid, tags.next(), v=rng.randrange(0, 1000))
+        return sg.call(rng.choice(["Echo", "Count", "Fail"]), cid, tags.next(), v=rng.randrange(0, 1000),
+                       extra=sg.pick_extra(rng, 0.15))
     pre = [valid() for _ in range(place)]
     post = [valid() for _ in range(rng.randrange(0, 2))]
     seq = [["n", cid]]
